@@ -1,1 +1,340 @@
-// placeholder
+//! Program generators (DESIGN §4.2): op soup, self-contained snippets, structured control flow.
+//!
+//! Snippets are self-contained: they push their own operands and are valid whenever the stack has
+//! room and the first `MEM_BASE` memory words exist (every structured program starts by allocating
+//! them). That makes them freely composable under jumps, repeats and compute without having to
+//! simulate the machine while generating.
+
+use super::{boundary_word, small_word, word};
+use crate::model::ops::MOp;
+use crate::model::ops::MOp::*;
+use proptest::prelude::*;
+
+/// Memory words reserved at the start of every structured program. Cells 0..8 are loop counters.
+pub const MEM_BASE: i64 = 48;
+const COUNTER_CELLS: i64 = 8;
+
+pub fn soup(max_len: usize) -> impl Strategy<Value = Vec<MOp>> {
+    proptest::collection::vec(super::mop_pushy(), 0..=max_len)
+}
+
+fn p(w: i64) -> MOp {
+    PUSH(w)
+}
+
+/// A snippet with net stack effect +1 (pushes one result word).
+pub fn snippet_plus1() -> BoxedStrategy<Vec<MOp>> {
+    let safe = || prop_oneof![3 => -50i64..50, 1 => boundary_word(), 1 => word()];
+    let addr = || COUNTER_CELLS..MEM_BASE;
+    prop_oneof![
+        // tag
+        3 => word().prop_map(|w| vec![p(w)]),
+        // binary ALU / Pred
+        6 => (safe(), safe(), 0usize..19).prop_map(|(a, b, k)| {
+            let op = [ADD, SUB, MUL, DIV, MOD, SHL, SHR, SHRI, EQ, GT, LT, GTE, LTE, AND, OR, BAND, BOR, EQ, LT][k];
+            let (a, b) = match op {
+                DIV | MOD if b == 0 => (a, 3),
+                SHL | SHR | SHRI => (a, b.rem_euclid(64)),
+                ADD | SUB | MUL => (a % (1 << 31), b % (1 << 31)),
+                _ => (a, b),
+            };
+            let (a, b) = if matches!(op, DIV | MOD) && a == i64::MIN && b == -1 { (a, 1) } else { (a, b) };
+            vec![p(a), p(b), op]
+        }),
+        1 => safe().prop_map(|a| vec![p(a), NOT]),
+        // dup / swap / select
+        2 => (safe(), safe()).prop_map(|(a, b)| vec![p(a), p(b), SWAP, POP]),
+        2 => (safe(), safe(), 0i64..2).prop_map(|(a, b, c)| vec![p(a), p(b), p(c), SEL]),
+        2 => (safe(), safe(), safe(), 0i64..3).prop_map(|(a, b, c, i)| vec![p(a), p(b), p(c), p(i), DUPF, SWAP, POP, SWAP, POP, SWAP, POP]),
+        2 => (safe(), safe(), safe(), 0i64..3).prop_map(|(a, b, c, i)| vec![p(a), p(b), p(c), p(i), SWAPI, POP, POP]),
+        // select range / eq range
+        2 => (proptest::collection::vec(safe(), 1..4), 0i64..2, any::<bool>()).prop_map(|(xs, c, same)| {
+            let n = xs.len() as i64;
+            let mut v: Vec<MOp> = xs.iter().map(|w| p(*w)).collect();
+            v.extend(xs.iter().map(|w| p(if same { *w } else { w.wrapping_add(1) })));
+            v.extend([p(n), p(c), SLTR, p(n - 1), DROP]);
+            v
+        }),
+        2 => (proptest::collection::vec(safe(), 0..4), any::<bool>(), any::<u32>()).prop_map(|(xs, same, pos)| {
+            let n = xs.len() as i64;
+            let mut v: Vec<MOp> = xs.iter().map(|w| p(*w)).collect();
+            let mut ys = xs.clone();
+            if !same && !ys.is_empty() {
+                let i = super::pick_ix(pos, ys.len());
+                ys[i] = ys[i].wrapping_add(1);
+            }
+            v.extend(ys.iter().map(|w| p(*w)));
+            v.extend([p(n), EQRA]);
+            v
+        }),
+        // eq set
+        1 => (proptest::collection::vec(proptest::collection::vec(-2i64..3, 0..3), 0..3), any::<bool>()).prop_map(|(elems, rev)| {
+            let enc = |es: &Vec<Vec<i64>>| -> Vec<MOp> {
+                let mut v = Vec::new();
+                let mut total = 0;
+                for e in es {
+                    v.extend(e.iter().map(|w| p(*w)));
+                    v.push(p(e.len() as i64));
+                    total += e.len() as i64 + 1;
+                }
+                v.push(p(total));
+                v
+            };
+            let mut other = elems.clone();
+            if rev { other.reverse(); }
+            let mut v = enc(&elems);
+            v.extend(enc(&other));
+            v.push(EQST);
+            v
+        }),
+        // reserve / load / store on the stack frame
+        2 => (0i64..4, safe()).prop_map(|(n, val)| {
+            if n == 0 {
+                vec![p(0), RES]
+            } else {
+                // [z*n, ix] -> store val at ix -> load it back -> remove the n frame words below it
+                let mut out = vec![p(n), RES, DUP, p(val), SWAP, STOS, LODS];
+                for _ in 0..n {
+                    out.extend([SWAP, POP]);
+                }
+                out
+            }
+        }),
+        // memory
+        3 => (addr(), safe()).prop_map(|(a, v)| vec![p(v), p(a), STO, p(a), LOD]),
+        2 => (addr(), proptest::collection::vec(safe(), 1..4)).prop_map(|(a, xs)| {
+            let a = a.min(MEM_BASE - xs.len() as i64);
+            let n = xs.len() as i64;
+            let mut v: Vec<MOp> = xs.iter().map(|w| p(*w)).collect();
+            v.extend([p(n), p(a), STOR, p(a), p(n), LODR, p(n - 1), DROP]);
+            v
+        }),
+        1 => (0i64..3).prop_map(|n| vec![p(n), ALOC]),
+        1 => Just(vec![p(0), ALOC, DUP, FREE]),
+        // access
+        1 => Just(vec![DSLT]),
+        1 => Just(vec![THIS, p(3), DROP]),
+        1 => Just(vec![THISC, p(3), DROP]),
+        1 => (0i64..3).prop_map(|s| vec![p(s), DLEN]),
+        1 => (0i64..2, 0i64..2).prop_map(|(s, v)| vec![p(s), p(v), p(1), DATA]),
+        // sha256 of a few bytes
+        1 => (proptest::collection::vec(word(), 0..3), 0i64..8).prop_map(|(ws, cut)| {
+            let n = (ws.len() as i64 * 8 - cut).max(0);
+            let need = (n + 7) / 8;
+            let mut v: Vec<MOp> = ws.iter().take(need as usize).map(|w| p(*w)).collect();
+            v.extend([p(n), SHA2, p(3), DROP]);
+            v
+        }),
+        // state reads into the reserved region (values are small in the generated states)
+        2 => (0usize..4, proptest::collection::vec(-2i64..3, 0..3), 0i64..3).prop_map(|(k, key, count)| {
+            let op = [KRNG, PKRNG, KREX, PKREX][k];
+            let mut v = Vec::new();
+            if matches!(op, KREX | PKREX) {
+                v.extend([p(1), p(1), p(1), p(1)]);
+            }
+            v.extend(key.iter().map(|w| p(*w)));
+            v.extend([p(key.len() as i64), p(count), p(COUNTER_CELLS), op, p(COUNTER_CELLS), LOD]);
+            v
+        }),
+    ]
+    .boxed()
+}
+
+/// Snippet producing a 0/1 condition.
+pub fn cond_snippet() -> BoxedStrategy<Vec<MOp>> {
+    prop_oneof![
+        2 => (0i64..2).prop_map(|c| vec![p(c)]),
+        2 => (-3i64..4, -3i64..4).prop_map(|(a, b)| vec![p(a), p(b), LT]),
+        1 => (-3i64..4, -3i64..4).prop_map(|(a, b)| vec![p(a), p(b), EQ]),
+    ]
+    .boxed()
+}
+
+#[derive(Clone, Copy, Debug)]
+pub struct StructCfg {
+    pub compute: bool,
+    pub state_reads: bool,
+    pub max_loop: i64,
+    pub depth: u32,
+    pub halts: bool,
+    pub tags_only: bool,
+}
+
+impl Default for StructCfg {
+    fn default() -> Self {
+        StructCfg {
+            compute: true,
+            state_reads: true,
+            max_loop: 5,
+            depth: 3,
+            halts: true,
+            tags_only: false,
+        }
+    }
+}
+
+fn leaf_block(cfg: StructCfg) -> BoxedStrategy<Vec<MOp>> {
+    let snip = if cfg.tags_only {
+        word().prop_map(|w| vec![p(w)]).boxed()
+    } else {
+        snippet_plus1()
+    };
+    (proptest::collection::vec((snip, any::<bool>()), 1..4))
+        .prop_map(|parts| {
+            let mut v = Vec::new();
+            for (s, keep) in parts {
+                v.extend(s);
+                if !keep {
+                    v.push(POP);
+                }
+            }
+            v
+        })
+        .boxed()
+}
+
+/// Structured block: sequences, ifs, counted backward jumps, repeats (both directions, counts incl. <= 0).
+/// `level` = current loop nesting (selects the counter cell).
+fn block(cfg: StructCfg, in_compute: bool) -> BoxedStrategy<Vec<MOp>> {
+    let leaf = leaf_block(cfg);
+    leaf.prop_recursive(cfg.depth, 48, 4, move |inner| {
+        let max_loop = cfg.max_loop;
+        let mut alts: Vec<(u32, BoxedStrategy<Vec<MOp>>)> = vec![
+            // sequence
+            (3, proptest::collection::vec(inner.clone(), 2..4).prop_map(|bs| bs.concat()).boxed()),
+            // if: skip the block when cond = 1
+            (
+                3,
+                (cond_snippet(), inner.clone())
+                    .prop_map(|(c, b)| {
+                        let mut v = vec![p(b.len() as i64 + 1)];
+                        v.extend(c);
+                        v.push(JMPIF);
+                        v.extend(b);
+                        v
+                    })
+                    .boxed(),
+            ),
+            // counted backward jump, counter in a memory cell chosen by a generated index
+            (
+                2,
+                (1..=max_loop, 0..COUNTER_CELLS, inner.clone())
+                    .prop_map(|(k, cell, b)| {
+                        let mut v = vec![p(k), p(cell), STO];
+                        let start = v.len();
+                        v.extend(b);
+                        v.extend([p(cell), LOD, p(1), SUB, DUP, p(cell), STO, p(0), GT]);
+                        // [.., cond] -> [.., dist, cond]
+                        let jmp_at = v.len() + 2;
+                        let dist = start as i64 - jmp_at as i64;
+                        v.extend([p(dist), SWAP, JMPIF]);
+                        v
+                    })
+                    .boxed(),
+            ),
+            // repeat
+            (
+                3,
+                (prop_oneof![3 => 1..=max_loop, 1 => -2i64..1, 1 => Just(i64::MIN)], 0i64..2, any::<bool>(), inner.clone())
+                    .prop_map(|(n, up, use_counter, b)| {
+                        let mut v = vec![p(n), p(up), REP];
+                        if use_counter {
+                            v.push(REPC);
+                        }
+                        v.extend(b);
+                        v.push(REPE);
+                        v
+                    })
+                    .boxed(),
+            ),
+        ];
+        if cfg.halts {
+            alts.push((
+                1,
+                (cond_snippet(), inner.clone())
+                    .prop_map(|(c, b)| {
+                        let mut v = b;
+                        v.extend(c);
+                        v.push(HLTIF);
+                        v
+                    })
+                    .boxed(),
+            ));
+        }
+        if cfg.compute && !in_compute {
+            alts.push((2, compute_block(cfg).boxed()));
+        }
+        proptest::strategy::Union::new_weighted(alts)
+    })
+    .boxed()
+}
+
+/// `PUSH n; COM; <child body>; COME` with index dependent child bodies.
+pub fn compute_block(cfg: StructCfg) -> impl Strategy<Value = Vec<MOp>> {
+    let child_cfg = StructCfg {
+        compute: false,
+        depth: cfg.depth.min(2),
+        ..cfg
+    };
+    let piece = prop_oneof![
+        // allocate (i mod k) words and store the index in them
+        3 => (1i64..4).prop_map(|k| vec![DUP, p(k), MOD, ALOC, POP]),
+        // store a function of i in fresh memory: [i] -> [i, a] -> [i, a, i|w] -> [i, i|w, a] -> STO -> [i]
+        3 => (word()).prop_map(|w| vec![p(1), ALOC, p(1), DUPF, p(w % 1000), BOR, SWAP, STO]),
+        // read parent memory
+        2 => (0..MEM_BASE).prop_map(|a| vec![p(a), LODP, POP]),
+        2 => (0..MEM_BASE - 4, 0i64..4).prop_map(|(a, n)| vec![p(a), p(n), LODPR, p(n), DROP]),
+        // index dependent skip of a block
+        3 => (1i64..4, 0i64..3, leaf_block(child_cfg)).prop_map(|(k, r, b)| {
+            // if i mod k == r skip b
+            let mut v = vec![DUP, p(k), MOD, p(r), EQ]; // [.., i, cond]
+            v.extend([p(b.len() as i64 + 1), SWAP, JMPIF]);
+            v.extend(b);
+            v
+        }),
+        // halting child for some indices
+        1 => (1i64..4, 0i64..3).prop_map(|(k, r)| vec![DUP, p(k), MOD, p(r), EQ, HLTIF]),
+        // early compute end for some indices
+        1 => (1i64..4, 0i64..3).prop_map(|(k, r)| vec![DUP, p(k), MOD, p(r), EQ, NOT, p(2), SWAP, JMPIF, COME]),
+        // generic block
+        3 => block(child_cfg, true),
+        // failing child (rare)
+        1 => (2i64..6).prop_map(|r| vec![DUP, p(r), EQ, PNCIF]),
+        // nested compute (always an error when executed)
+        1 => Just(vec![p(1), COM, COME]),
+    ];
+    (
+        prop_oneof![6 => 1i64..6, 2 => 6i64..20, 1 => -1i64..1],
+        proptest::collection::vec(piece, 0..4),
+        prop_oneof![6 => Just(0u8), 1 => Just(1u8), 1 => Just(2u8)],
+    )
+        .prop_map(|(n, pieces, ending)| {
+            let mut v = vec![p(n), COM];
+            for x in pieces {
+                v.extend(x);
+            }
+            match ending {
+                0 => v.push(COME),
+                1 => v.push(HLT),
+                _ => {} // falls through into whatever follows / off the end
+            }
+            v
+        })
+}
+
+/// A full structured program: reserve memory, then blocks; optionally ends with a trailing HLT.
+pub fn structured(cfg: StructCfg) -> impl Strategy<Value = Vec<MOp>> {
+    (block(cfg, false), any::<bool>()).prop_map(|(b, halt)| {
+        let mut v = vec![p(MEM_BASE), ALOC, POP];
+        v.extend(b);
+        if halt {
+            v.push(HLT);
+        }
+        v
+    })
+}
+
+/// Small predicate-data / solution generator matching what the snippets access.
+pub fn small_data() -> impl Strategy<Value = Vec<Vec<i64>>> {
+    proptest::collection::vec(proptest::collection::vec(small_word(), 0..4), 0..4)
+}
